@@ -1,6 +1,7 @@
 package interp
 
 import (
+	"fmt"
 	"go/types"
 	"unsafe"
 )
@@ -70,4 +71,54 @@ func init() {
 	prefixExternals[utlsPath+"/internal/tls13.NewEarlySecret["] = mkOpaque
 	prefixExternals[utlsPath+"/internal/tls13.NewEarlySecretFromSecret["] = mkOpaque
 	prefixExternals[utlsPath+"/internal/tls13.NewMasterSecretFromSecret["] = mkOpaque
+}
+
+// HKDF-Extract and HKDF-Expand-Label are cryptography (hash compression over
+// symbolic input): modelled as arbitrary bytes of the requested length,
+// memoised on the structural key of the arguments so that equal arguments give
+// equal output. The outputs are inputs ("kdf#k"), so counterexamples replay.
+func init() {
+	memoKey := func(name string, parts ...value) string {
+		k := name
+		for _, p := range parts {
+			switch p := p.(type) {
+			case []value:
+				k += fmt.Sprintf("|%d:", len(p))
+				for _, b := range p {
+					k += termOf(b).Key() + ","
+				}
+			case string:
+				k += "|s:" + p
+			default:
+				k += "|" + termOf(p).Key()
+			}
+		}
+		return k
+	}
+	arbitrary := func(fr *frame, key string, n int) value {
+		i := fr.i
+		if i.kdfMemo == nil {
+			i.kdfMemo = map[string][]value{}
+		}
+		if v, ok := i.kdfMemo[key]; ok {
+			return append([]value{}, v...)
+		}
+		out := make([]value, n)
+		for j := range out {
+			out[j] = fr.ctx().NewInput("kdf", kindU8)
+		}
+		i.kdfMemo[key] = out
+		return append([]value{}, out...)
+	}
+	prefixExternals[utlsPath+"/internal/tls13.ExpandLabel["] = func(fr *frame, a []value) value {
+		n := int(asInt64(a[4]))
+		secret, _ := a[1].([]value)
+		ctxb, _ := a[3].([]value)
+		return arbitrary(fr, memoKey("expandlabel", secret, a[2], ctxb, int64(n)), n)
+	}
+	prefixExternals[utlsPath+"/internal/hkdf.Extract["] = func(fr *frame, a []value) value {
+		secret, _ := a[1].([]value)
+		salt, _ := a[2].([]value)
+		return arbitrary(fr, memoKey("hkdfextract", secret, salt), 32)
+	}
 }
